@@ -4,19 +4,28 @@ R-DEPENDS  the prefactor attached to a chain depends on the node(s) whose coeffi
            mapped to a partner: every contribution is control-dependent on the per-node test
            "mapped suffix != raw suffix" and data-dependent on that node.
 R-PARTNER  the partner suffix reverses both daughter helicities and suppresses the parent's.
+
+The control/data conditions are decided on the PATHS of the functions, not on their text: ``SymExec``
+below executes a function symbolically for one generic iteration of every loop (forking at every
+``if``), substitutes local definitions and the bodies of package helpers into the branch conditions
+and values, and brings list comprehensions and accumulator loops into one normal form.  Guard clauses
+(``if c: continue``), nested ifs, hoisted aliases, extracted predicates and ``m.get(k, k)`` versus
+``k in m`` / ``m[k]`` therefore all read the same.
 """
 
 from __future__ import annotations
 
 import ast
+import copy
 
-from ..dataflow import RD, Def
+from ..dataflow import MUTATORS, RD
 from ..loader import AnalysisError, FuncInfo, Tree, ancestors, unparse, walk_function
 from ..report import Check
 
 PID = "C03"
 BUILDER = "ampform.helicity::HelicityAmplitudeBuilder"
 MAPPING = "parity_partner_coefficient_mapping"
+RAW_SUFFIX = "generate_two_body_decay_suffix"
 
 
 def locate_prefactor_function(tree: Tree) -> FuncInfo:
@@ -37,9 +46,23 @@ def locate_prefactor_function(tree: Tree) -> FuncInfo:
                 callee = tree.callee(d.value, seq)
                 if callee in tree.funcs:
                     candidates.append(tree.funcs[callee])
+    reads = lambda g: any(isinstance(n, ast.Attribute) and n.attr == MAPPING for n in walk_function(g.node))  # noqa: E731
     for f in candidates:
-        if any(isinstance(n, ast.Attribute) and n.attr == MAPPING for n in walk_function(f.node)):
+        if reads(f):
             return f
+    # ... or reads it in a helper extracted from it (a function of the same module that it calls; the name
+    # generator, which reads the mapping for the coefficient NAME, lives in another module)
+    for f in candidates:
+        seen, todo = {f.qual}, [f]
+        while todo:
+            g = todo.pop()
+            for _, q in tree.calls_in(g):
+                h = tree.funcs.get(q) if q else None
+                if h is not None and h.qual not in seen and h.module is f.module:
+                    seen.add(h.qual)
+                    todo.append(h)
+                    if reads(h):
+                        return f
     raise AnalysisError("vanished anchor: no function that reads parity_partner_coefficient_mapping is multiplied into the sequential amplitude")
 
 
@@ -47,29 +70,650 @@ def node_loops(fn: FuncInfo) -> list[ast.For]:
     return [n for n in walk_function(fn.node) if isinstance(n, ast.For) and unparse(n.iter).endswith("topology.nodes")]
 
 
-def is_flip_test(test: ast.AST, rd: RD) -> bool:
-    """`mapped != raw` where one side derives from the partner mapping."""
-    for c in ast.walk(test):
-        if isinstance(c, ast.Compare) and len(c.ops) == 1 and isinstance(c.ops[0], ast.NotEq):
-            sides = [c.left, c.comparators[0]]
-            derives = []
-            for s in sides:
-                txt = unparse(s) + "".join(unparse(d.value) for d in rd.closure(rd.uses(s)) if d.value is not None)
-                derives.append(MAPPING in txt)
-            if any(derives):
-                return True
-    return False
+# ============================================================================ symbolic execution
+class _Unsupported(Exception):
+    """A statement the symbolic execution does not model (the caller fails closed)."""
 
 
-def under_flip_test(node: ast.AST, loop: ast.For, rd: RD) -> bool:
-    child = node
-    for a in ancestors(node):
-        if a is loop:
+class _State:
+    """One path: ``env`` (local name -> symbolic value of the CURRENT frame), the branch ``facts``
+    (condition, outcome) met so far (all frames, in terms of the entry function), and for every simple
+    statement of the entry function that was executed: the number of facts known at that point and
+    the symbolic value of its right-hand side."""
+
+    __slots__ = ("env", "facts", "reached", "appends")
+
+    def __init__(self) -> None:
+        self.env: dict = {}
+        self.facts: list[tuple[ast.AST, bool]] = []
+        self.reached: dict[int, tuple[int, ast.AST | None]] = {}
+        self.appends: dict[str, list[ast.AST]] = {}
+
+    def fork(self) -> "_State":
+        new = _State()
+        new.env = dict(self.env)
+        new.facts = list(self.facts)
+        new.reached = dict(self.reached)
+        new.appends = {k: list(v) for k, v in self.appends.items()}
+        return new
+
+
+class _Frame:
+    def __init__(self, fn: FuncInfo, depth: int, chain: str, stack: tuple[str, ...]) -> None:
+        self.fn, self.depth, self.chain, self.stack = fn, depth, chain, stack
+
+
+def _same(a: ast.AST, b: ast.AST) -> bool:
+    return ast.dump(a) == ast.dump(b)
+
+
+def _is_seq(v) -> bool:
+    return isinstance(v, ast.ListComp) and getattr(v, "_seq", False)
+
+
+def _is_empty_list(v) -> bool:
+    if isinstance(v, ast.List) and not v.elts:
+        return True
+    return isinstance(v, ast.Call) and isinstance(v.func, ast.Name) and v.func.id == "list" and not v.args and not v.keywords
+
+
+def _truth(v: ast.AST) -> bool | None:
+    """Truth value of a symbolic condition when it is a constant."""
+    if isinstance(v, ast.Constant):
+        return bool(v.value)
+    if isinstance(v, ast.UnaryOp) and isinstance(v.op, ast.Not):
+        t = _truth(v.operand)
+        return None if t is None else not t
+    if isinstance(v, ast.Compare) and len(v.ops) == 1 and isinstance(v.left, ast.Constant) and isinstance(v.comparators[0], ast.Constant):
+        a, b = v.left.value, v.comparators[0].value
+        op = v.ops[0]
+        if isinstance(op, ast.Eq):
+            return a == b
+        if isinstance(op, ast.NotEq):
+            return a != b
+        if isinstance(op, ast.Is) and (a is None or b is None):
+            return a is b
+        if isinstance(op, ast.IsNot) and (a is None or b is None):
+            return a is not b
+    return None
+
+
+MAX_STATES = 4000
+
+
+class SymExec:
+    """Symbolic execution of one function of the package, one generic iteration per loop.
+
+    * every ``if`` forks the path (constant conditions do not); the branch condition - with the local
+      definitions of that path substituted - is recorded as a fact of the path;
+    * a loop body is executed once for a generic element: ``for x in S`` binds ``x`` to the symbol
+      ``<each S>`` (or, if ``S`` is itself a known sequence, to its generic element); names that are
+      re-assigned in the body are unknown at the start of the iteration (loop-carried);
+    * ``[f(x) for x in S]``, ``list(f(x) for x in S)`` and ``a = []; for x in S: ...; a.append(f(x))``
+      all become the sequence value ``[f(<each S>) for <each S> in S]``; iterating / mapping over such a
+      value composes the element expressions.  A path that does not append exactly one element per
+      item (continue, break, two appends, a filter) is marked in the ``ifs`` of the sequence;
+    * calls of package functions are executed the same way (depth-bounded, every path of the callee
+      forks the caller) when they sit at a position that is evaluated unconditionally; at conditional
+      positions (right operand of and/or, comprehension element) only branch-free helpers are inlined.
+      ``generate_two_body_decay_suffix`` stays an atom (the raw suffix of a node).
+    Everything else stays symbolic text.  Nothing is executed."""
+
+    def __init__(self, tree: Tree, fn: FuncInfo, max_depth: int = 3) -> None:
+        self.tree, self.fn, self.max_depth = tree, fn, max_depth
+        self.n_states = 0
+        self.opaque_calls: set[str] = set()
+
+    # ------------------------------------------------------------------ public
+    def run(self) -> list[tuple[_State, ast.AST]]:
+        """Final states of the entry function with the symbolic return value (None constant for a
+        bare return / falling off the end); paths that raise are dropped."""
+        st = _State()
+        frame = _Frame(self.fn, 0, "", (self.fn.qual,))
+        try:
+            results = self._block(self.fn.node.body, st, frame)
+        except _Unsupported as exc:
+            raise AnalysisError(f"{self.fn.qual}: the path analysis cannot follow {exc}") from exc
+        out = []
+        for s, status, val in results:
+            if status in {"next", "return"}:
+                out.append((s, val if val is not None else ast.Constant(None)))
+        return out
+
+    # --------------------------------------------------------------- symbols
+    @staticmethod
+    def _fresh(name: str, node: ast.AST, fr: _Frame) -> ast.Name:
+        return ast.Name(id=f"{name}@{fr.chain}{getattr(node, 'lineno', 0)}", ctx=ast.Load())
+
+    @staticmethod
+    def _each(src: ast.AST) -> str:
+        return f"<each {unparse(src)}>"
+
+    # ------------------------------------------------------------ expressions
+    def ev(self, node, st: _State, fr: _Frame, shadow: frozenset = frozenset()):
+        if isinstance(node, list):
+            return [self.ev(x, st, fr, shadow) for x in node]
+        if not isinstance(node, ast.AST):
+            return node
+        if isinstance(node, ast.Name):
+            if isinstance(node.ctx, ast.Load) and node.id not in shadow and node.id in st.env:
+                return st.env[node.id]
+            return node
+        if isinstance(node, ast.Call):
+            done = st.env.get(("call", id(node)))
+            if done is not None:
+                return done
+            if not shadow:
+                v = self._inline_branch_free(node, st, fr)
+                if v is not None:
+                    return v
+        if isinstance(node, ast.NamedExpr) and isinstance(node.target, ast.Name):
+            v = self.ev(node.value, st, fr, shadow)
+            st.env[node.target.id] = v
+            return v
+        if isinstance(node, (ast.ListComp, ast.GeneratorExp)) and not shadow:
+            seq = self._comprehension(node, st, fr)
+            if seq is not None:
+                return seq
+        if isinstance(node, (ast.ListComp, ast.SetComp, ast.GeneratorExp, ast.DictComp)):
+            shadow = shadow | {n.id for g in node.generators for n in ast.walk(g.target) if isinstance(n, ast.Name)}
+        if isinstance(node, ast.Lambda):
+            a = node.args
+            shadow = shadow | {x.arg for x in [*a.posonlyargs, *a.args, *a.kwonlyargs, a.vararg, a.kwarg] if x is not None}
+        new = copy.copy(node)
+        for fld, value in ast.iter_fields(node):
+            setattr(new, fld, self.ev(value, st, fr, shadow))
+        if (isinstance(new, ast.Call) and isinstance(new.func, ast.Name) and new.func.id in {"list", "tuple"} and new.func.id not in st.env
+                and len(new.args) == 1 and not new.keywords and _is_seq(new.args[0])):
+            return new.args[0]
+        return new
+
+    def _element(self, it: ast.AST):
+        """(variable, generic element, source, filters) of iterating the symbolic value ``it``."""
+        if _is_seq(it):
+            g = it.generators[0]
+            return g.target, it.elt, g.iter, list(g.ifs)
+        name = self._each(it)
+        return ast.Name(id=name, ctx=ast.Store()), ast.Name(id=name, ctx=ast.Load()), it, []
+
+    @staticmethod
+    def _seq(elt: ast.AST, var: ast.AST, src: ast.AST, ifs: list) -> ast.ListComp:
+        seq = ast.ListComp(elt=elt, generators=[ast.comprehension(target=var, iter=src, ifs=ifs, is_async=0)])
+        seq._seq = True  # type: ignore[attr-defined]
+        return seq
+
+    def _comprehension(self, node, st: _State, fr: _Frame):
+        if len(node.generators) != 1:
+            return None
+        gen = node.generators[0]
+        if gen.is_async or not isinstance(gen.target, ast.Name):
+            return None
+        var, elem, src, ifs = self._element(self.ev(gen.iter, st, fr))
+        name = gen.target.id
+        missing = object()
+        old = st.env.get(name, missing)
+        st.env[name] = elem
+        try:
+            elt = self.ev(node.elt, st, fr)
+            ifs = ifs + [self.ev(c, st, fr) for c in gen.ifs]
+        finally:
+            if old is missing:
+                st.env.pop(name, None)
+            else:
+                st.env[name] = old
+        return self._seq(elt, var, src, ifs)
+
+    # ------------------------------------------------------------------ calls
+    def _callee(self, call: ast.Call, fr: _Frame) -> FuncInfo | None:
+        if not hasattr(call, "_module"):
+            return None
+        name = call.func.attr if isinstance(call.func, ast.Attribute) else call.func.id if isinstance(call.func, ast.Name) else None
+        if name is None or name == RAW_SUFFIX:
+            return None
+        q = self.tree.callee(call, fr.fn)
+        tgt = self.tree.funcs.get(q) if q else None
+        if tgt is None or tgt.qual in fr.stack or fr.depth >= self.max_depth or not isinstance(tgt.node, ast.FunctionDef):
+            return None
+        decorators = {unparse(d) for d in tgt.node.decorator_list}
+        if decorators - {"staticmethod", "override", "typing.override"}:
+            return None
+        if any(isinstance(n, (ast.Yield, ast.YieldFrom, ast.Await)) for n in walk_function(tgt.node, nested=False)):
+            return None
+        return tgt
+
+    def _bind(self, call: ast.Call, tgt: FuncInfo, st: _State, fr: _Frame) -> dict | None:
+        a = tgt.node.args
+        if a.vararg or a.kwarg or any(isinstance(x, ast.Starred) for x in call.args) or any(k.arg is None for k in call.keywords):
+            return None
+        positional = [x.arg for x in [*a.posonlyargs, *a.args]]
+        env: dict = {}
+        if tgt.cls is not None and "staticmethod" not in {unparse(d) for d in tgt.node.decorator_list}:
+            if not positional or not isinstance(call.func, ast.Attribute):
+                return None
+            env[positional.pop(0)] = self.ev(call.func.value, st, fr)
+        if len(call.args) > len(positional):
+            return None
+        for p, arg in zip(positional, call.args):
+            env[p] = self.ev(arg, st, fr)
+        names = set(positional) | {x.arg for x in a.kwonlyargs}
+        for k in call.keywords:
+            if k.arg not in names or k.arg in env:
+                return None
+            env[k.arg] = self.ev(k.value, st, fr)
+        defaults = dict(zip(reversed([x.arg for x in [*a.posonlyargs, *a.args]]), reversed(a.defaults)))
+        defaults.update({x.arg: d for x, d in zip(a.kwonlyargs, a.kw_defaults) if d is not None})
+        for p in names:
+            if p not in env:
+                d = defaults.get(p)
+                if not isinstance(d, ast.Constant):
+                    return None
+                env[p] = d
+        return env
+
+    def _inline(self, call: ast.Call, st: _State, fr: _Frame) -> list[_State] | None:
+        """Execute the callee on forks of ``st``; every returned state has the value of the call bound."""
+        tgt = self._callee(call, fr)
+        if tgt is None:
+            return None
+        env = self._bind(call, tgt, st, fr)
+        if env is None:
+            return None
+        inner = st.fork()
+        inner.env, inner.appends = env, {}
+        frame = _Frame(tgt, fr.depth + 1, f"{fr.chain}{getattr(call, 'lineno', 0)}:{getattr(call, 'col_offset', 0)}>", (*fr.stack, tgt.qual))
+        try:
+            results = self._block(tgt.node.body, inner, frame)
+        except _Unsupported:
+            return None
+        out = []
+        for s, status, val in results:
+            if status not in {"next", "return"}:
+                continue
+            s.env = dict(st.env)
+            s.appends = {k: list(v) for k, v in st.appends.items()}
+            s.env[("call", id(call))] = val if val is not None else ast.Constant(None)
+            out.append(s)
+        return out
+
+    def _inline_branch_free(self, call: ast.Call, st: _State, fr: _Frame):
+        res = self._inline(call, st, fr)
+        if res is None or len(res) != 1 or len(res[0].facts) != len(st.facts):
+            if self._is_package_call(call, fr):
+                self.opaque_calls.add(unparse(call.func))
+            return None
+        return res[0].env[("call", id(call))]
+
+    def _is_package_call(self, call: ast.Call, fr: _Frame) -> bool:
+        if not hasattr(call, "_module"):
             return False
-        if isinstance(a, ast.If) and any(child is s or any(x is child for x in ast.walk(s)) for s in a.body) and is_flip_test(a.test, rd):
+        name = call.func.attr if isinstance(call.func, ast.Attribute) else None
+        if name == RAW_SUFFIX:
+            return False
+        q = self.tree.callee(call, fr.fn)
+        return bool(q) and q in self.tree.funcs
+
+    @staticmethod
+    def _unconditional_calls(expr: ast.AST) -> list[ast.Call]:
+        """Calls inside ``expr`` that are evaluated whenever ``expr`` is (post-order: arguments first)."""
+        out: list[ast.Call] = []
+
+        def visit(n: ast.AST) -> None:
+            if isinstance(n, ast.BoolOp):
+                visit(n.values[0])
+                return
+            if isinstance(n, ast.IfExp):
+                visit(n.test)
+                return
+            if isinstance(n, (ast.ListComp, ast.SetComp, ast.GeneratorExp, ast.DictComp)):
+                visit(n.generators[0].iter)
+                return
+            if isinstance(n, ast.Lambda):
+                return
+            for c in ast.iter_child_nodes(n):
+                visit(c)
+            if isinstance(n, ast.Call):
+                out.append(n)
+
+        visit(expr)
+        return out
+
+    def _prepare(self, exprs: list, st: _State, fr: _Frame) -> list[_State]:
+        """Fork ``st`` over the paths of the package functions called (unconditionally) in ``exprs``."""
+        states = [st]
+        for e in exprs:
+            if e is None:
+                continue
+            for call in self._unconditional_calls(e):
+                nxt = []
+                for s in states:
+                    res = self._inline(call, s, fr)
+                    nxt += [s] if res is None else res
+                states = nxt
+        return states
+
+    # -------------------------------------------------------------- statements
+    def _block(self, stmts: list[ast.stmt], st: _State, fr: _Frame):
+        states = [(st, "next", None)]
+        for stmt in stmts:
+            nxt = []
+            for s, status, val in states:
+                if status != "next":
+                    nxt.append((s, status, val))
+                else:
+                    nxt += self._stmt(stmt, s, fr)
+            states = nxt
+            self.n_states = max(self.n_states, len(states))
+            if len(states) > MAX_STATES:
+                raise AnalysisError(f"{self.fn.qual}: path explosion in the symbolic execution")
+        return states
+
+    def _assign(self, target: ast.AST, value: ast.AST, st: _State, fr: _Frame, stmt: ast.stmt) -> None:
+        if isinstance(target, ast.Name):
+            st.env[target.id] = value
+        elif isinstance(target, (ast.Tuple, ast.List)):
+            plain = not any(isinstance(t, ast.Starred) for t in target.elts)
+            for i, t in enumerate(target.elts):
+                if plain and isinstance(value, (ast.Tuple, ast.List)) and len(value.elts) == len(target.elts) and not any(isinstance(e, ast.Starred) for e in value.elts):
+                    self._assign(t, value.elts[i], st, fr, stmt)
+                elif plain:
+                    self._assign(t, ast.Subscript(value=value, slice=ast.Constant(i), ctx=ast.Load()), st, fr, stmt)
+                else:
+                    for n in ast.walk(t):
+                        if isinstance(n, ast.Name):
+                            st.env[n.id] = self._fresh(n.id, stmt, fr)
+        elif isinstance(target, (ast.Subscript, ast.Attribute)):
+            base = target
+            while isinstance(base, (ast.Subscript, ast.Attribute)):
+                base = base.value
+            if isinstance(base, ast.Name) and base.id in st.env and base.id != "self":
+                st.env[base.id] = self._fresh(base.id, stmt, fr)  # the object changed: what was known about it is void
+
+    def _stmt(self, stmt: ast.stmt, st: _State, fr: _Frame):
+        top = fr.depth == 0
+
+        def reached(s: _State, value) -> None:
+            if top:
+                s.reached[id(stmt)] = (len(s.facts), value)
+
+        if isinstance(stmt, (ast.Assign, ast.AnnAssign)):
+            if stmt.value is None:
+                return [(st, "next", None)]
+            out = []
+            for s in self._prepare([stmt.value], st, fr):
+                v = self.ev(stmt.value, s, fr)
+                reached(s, v)
+                for t in stmt.targets if isinstance(stmt, ast.Assign) else [stmt.target]:
+                    self._assign(t, v, s, fr, stmt)
+                out.append((s, "next", None))
+            return out
+        if isinstance(stmt, ast.AugAssign):
+            out = []
+            for s in self._prepare([stmt.value], st, fr):
+                v = self.ev(stmt.value, s, fr)
+                reached(s, v)
+                if isinstance(stmt.target, ast.Name):
+                    name = stmt.target.id
+                    if name in s.appends and isinstance(stmt.op, ast.Add) and isinstance(v, (ast.List, ast.Tuple)):
+                        s.appends[name] += list(v.elts)
+                    else:
+                        s.env[name] = ast.BinOp(left=s.env.get(name, ast.Name(id=name, ctx=ast.Load())), op=stmt.op, right=v)
+                else:
+                    self._assign(stmt.target, v, s, fr, stmt)
+                out.append((s, "next", None))
+            return out
+        if isinstance(stmt, ast.Expr):
+            out = []
+            for s in self._prepare([stmt.value], st, fr):
+                v = self.ev(stmt.value, s, fr)
+                reached(s, v)
+                c = stmt.value
+                if isinstance(c, ast.Call) and isinstance(c.func, ast.Attribute) and isinstance(c.func.value, ast.Name) and c.func.attr in MUTATORS:
+                    name = c.func.value.id
+                    if name in s.appends and c.func.attr == "append" and len(c.args) == 1 and not c.keywords:
+                        s.appends[name].append(v.args[0] if isinstance(v, ast.Call) else self.ev(c.args[0], s, fr))
+                    elif name in s.env:
+                        s.env[name] = self._fresh(name, stmt, fr)
+                out.append((s, "next", None))
+            return out
+        if isinstance(stmt, ast.Return):
+            out = []
+            for s in self._prepare([stmt.value], st, fr):
+                v = self.ev(stmt.value, s, fr) if stmt.value is not None else ast.Constant(None)
+                reached(s, v)
+                out.append((s, "return", v))
+            return out
+        if isinstance(stmt, ast.If):
+            out = []
+            for s in self._prepare([stmt.test], st, fr):
+                test = self.ev(stmt.test, s, fr)
+                known = _truth(test)
+                for outcome, body in ((True, stmt.body), (False, stmt.orelse)):
+                    if known is not None and known != outcome:
+                        continue
+                    b = s.fork() if known is None else s
+                    b.facts.append((test, outcome))
+                    out += self._block(body, b, fr)
+            return out
+        if isinstance(stmt, ast.For):
+            return self._for(stmt, st, fr)
+        if isinstance(stmt, ast.With):
+            for item in stmt.items:
+                if item.optional_vars is not None:
+                    for n in ast.walk(item.optional_vars):
+                        if isinstance(n, ast.Name):
+                            st.env[n.id] = self._fresh(n.id, stmt, fr)
+            return self._block(stmt.body, st, fr)
+        if isinstance(stmt, ast.Raise):
+            return [(st, "raise", None)]
+        if isinstance(stmt, ast.Continue):
+            return [(st, "continue", None)]
+        if isinstance(stmt, ast.Break):
+            return [(st, "break", None)]
+        if isinstance(stmt, (ast.Pass, ast.Assert, ast.Import, ast.ImportFrom, ast.Global, ast.Nonlocal)):
+            return [(st, "next", None)]
+        if isinstance(stmt, ast.Delete):
+            for t in stmt.targets:
+                if isinstance(t, ast.Name):
+                    st.env.pop(t.id, None)
+            return [(st, "next", None)]
+        if isinstance(stmt, (ast.FunctionDef, ast.ClassDef)):
+            st.env[stmt.name] = self._fresh(stmt.name, stmt, fr)
+            return [(st, "next", None)]
+        raise _Unsupported(f"a `{type(stmt).__name__.lower()}` statement ({self.tree.loc(stmt)})")
+
+    def _for(self, loop: ast.For, st: _State, fr: _Frame):
+        out = []
+        stored: set[str] = set()
+        appended: set[str] = set()
+        for n in walk_function(loop):
+            if isinstance(n, ast.Name) and isinstance(n.ctx, ast.Store):
+                stored.add(n.id)
+            if isinstance(n, ast.Call) and isinstance(n.func, ast.Attribute) and n.func.attr in MUTATORS and isinstance(n.func.value, ast.Name):
+                appended.add(n.func.value.id)
+            if isinstance(n, ast.AugAssign) and isinstance(n.target, ast.Name):
+                appended.add(n.target.id)
+        targets = {n.id for n in ast.walk(loop.target) if isinstance(n, ast.Name)}
+        for s in self._prepare([loop.iter], st, fr):
+            var, elem, src, ifs = self._element(self.ev(loop.iter, s, fr))
+            accs = {a for a in appended if _is_empty_list(s.env.get(a))}
+            for name in stored - targets:
+                if name not in accs:
+                    s.env[name] = self._fresh(name, loop, fr)  # loop-carried: value of an earlier iteration
+            if isinstance(loop.target, ast.Name):
+                s.env[loop.target.id] = elem
+            else:
+                for name in targets:
+                    s.env[name] = self._fresh(name, loop, fr)
+            outer = s.appends
+            s.appends = {a: [] for a in accs}
+            for b, status, val in self._block(loop.body, s, fr):
+                if status in {"return", "raise"}:
+                    out.append((b, status, val))
+                    continue
+                for a in accs:
+                    items = b.appends.get(a, [])
+                    if status != "break" and len(items) == 1:
+                        b.env[a] = self._seq(items[0], var, src, list(ifs))
+                    else:
+                        why = ast.Name(id=f"<{len(items)} elements on a path{' that leaves the loop' if status == 'break' else ''}>", ctx=ast.Load())
+                        b.env[a] = self._seq(items[0] if items else ast.Constant(None), var, src, [*ifs, why])
+                b.appends = {k: list(v) for k, v in outer.items()}
+                if status != "break" and loop.orelse:
+                    out += self._block(loop.orelse, b, fr)
+                else:
+                    out.append((b, "next", None))
+        return out
+
+
+# ---------------------------------------------------------------- facts about the partner mapping
+def atoms(facts) -> list[tuple[ast.AST, bool]]:
+    """Atomic conditions that certainly hold on a path: `not`, a true `and`, a false `or` are split."""
+    out: list[tuple[ast.AST, bool]] = []
+
+    def split(test: ast.AST, outcome: bool) -> None:
+        if isinstance(test, ast.UnaryOp) and isinstance(test.op, ast.Not):
+            split(test.operand, not outcome)
+        elif isinstance(test, ast.BoolOp) and isinstance(test.op, ast.And if outcome else ast.Or):
+            for v in test.values:
+                split(v, outcome)
+        else:
+            out.append((test, outcome))
+
+    for test, outcome in facts:
+        split(test, outcome)
+    return out
+
+
+def is_mapping(e: ast.AST) -> bool:
+    """`<object>.parity_partner_coefficient_mapping` (the public accessor or the private attribute)."""
+    return isinstance(e, ast.Attribute) and e.attr.split("__")[-1] == MAPPING
+
+
+def is_raw(e: ast.AST) -> bool:
+    return isinstance(e, ast.Call) and (e.func.attr if isinstance(e.func, ast.Attribute) else getattr(e.func, "id", None)) == RAW_SUFFIX
+
+
+def raw_node(e: ast.Call) -> ast.AST | None:
+    """The node argument of generate_two_body_decay_suffix(transition, node_id)."""
+    if len(e.args) >= 2:
+        return e.args[1]
+    return next((k.value for k in e.keywords if k.arg == "node_id"), None)
+
+
+def mentions_mapping(e: ast.AST) -> bool:
+    return any(is_mapping(n) for n in ast.walk(e))
+
+
+def _asserts(at, left_pred, op_pos, op_neg, right_pred) -> bool | None:
+    """Does the atom assert (True) / deny (False) `left <op_pos> right`?  None: another atom."""
+    test, outcome = at
+    if isinstance(test, ast.Compare) and len(test.ops) == 1 and left_pred(test.left) and right_pred(test.comparators[0]):
+        if isinstance(test.ops[0], op_pos):
+            return outcome
+        if isinstance(test.ops[0], op_neg):
+            return not outcome
+    return None
+
+
+def registered(raw: ast.AST, ats) -> bool | None:
+    """Is `raw in <mapping>` known on the path?"""
+    for at in ats:
+        r = _asserts(at, lambda x: _same(x, raw), ast.In, ast.NotIn, is_mapping)
+        if r is not None:
+            return r
+    return None
+
+
+def mapped_value(m: ast.AST, raw: ast.AST, ats) -> bool:
+    """Is ``m`` the coefficient suffix the mapping gives for ``raw`` - ``raw`` itself if it is not registered?
+    `mapping[raw]` (raises for an unregistered suffix), `mapping.get(raw, raw)`, and `mapping.get(raw)` on a
+    path where the result is known not to be None / the suffix is known to be registered."""
+    if isinstance(m, ast.Subscript) and is_mapping(m.value) and _same(m.slice, raw):
+        return True
+    if isinstance(m, ast.Call) and isinstance(m.func, ast.Attribute) and m.func.attr == "get" and is_mapping(m.func.value) and not m.keywords and m.args and _same(m.args[0], raw):
+        if len(m.args) == 2 and _same(m.args[1], raw):
             return True
-        child = a
+        if len(m.args) == 1 or (isinstance(m.args[1], ast.Constant) and m.args[1].value is None):
+            if registered(raw, ats):
+                return True
+            is_none = lambda x: isinstance(x, ast.Constant) and x.value is None  # noqa: E731
+            return any(_asserts(at, lambda x: _same(x, m), ast.IsNot, ast.Is, is_none) for at in ats)
     return False
+
+
+def flip_atom(at, ats) -> tuple[bool, ast.Call] | None:
+    """(is the node flipped?, raw suffix) if the atom compares the mapped suffix of a node with its raw suffix."""
+    test, outcome = at
+    if not (isinstance(test, ast.Compare) and len(test.ops) == 1 and isinstance(test.ops[0], (ast.Eq, ast.NotEq))):
+        return None
+    for m, raw in ((test.left, test.comparators[0]), (test.comparators[0], test.left)):
+        if is_raw(raw) and mapped_value(m, raw, ats):
+            return (isinstance(test.ops[0], ast.NotEq)) == outcome, raw
+    return None
+
+
+def flip_status(facts, what: str) -> tuple[bool, list[ast.Call]]:
+    """Is the node of the iteration known to be mapped to its partner (`mapped suffix != raw suffix`) on a
+    path with these facts?  Returns (flipped, raw suffixes compared).  A condition on the partner mapping
+    that is not understood cannot be judged: AnalysisError."""
+    ats = atoms(facts)
+    verdicts, raws, unknown = [], [], []
+    for at in ats:
+        f = flip_atom(at, ats)
+        if f is not None:
+            verdicts.append(f[0])
+            raws.append(f[1])
+            continue
+        test = at[0]
+        if not mentions_mapping(test):
+            continue
+        if isinstance(test, ast.Compare) and len(test.ops) == 1 and isinstance(test.ops[0], (ast.In, ast.NotIn)) and is_mapping(test.comparators[0]):
+            continue  # registered / not registered: says nothing about the partner
+        if isinstance(test, ast.Compare) and len(test.ops) == 1 and isinstance(test.ops[0], (ast.Is, ast.IsNot)):
+            continue
+        unknown.append(unparse(test))
+    if any(verdicts):
+        return True, raws
+    if unknown:
+        raise AnalysisError(f"{what}: cannot decide whether the condition `{unknown[0]}` on the partner mapping is the flip test `mapped suffix != raw suffix`")
+    return False, raws
+
+
+class PathFacts:
+    """The paths of one function (SymExec) queried by statement."""
+
+    def __init__(self, tree: Tree, fn: FuncInfo) -> None:
+        self.tree, self.fn = tree, fn
+        self.sym = SymExec(tree, fn)
+        self.finals = self.sym.run()
+        if not self.finals:
+            raise AnalysisError(f"{fn.qual}: no path returns")
+        self.raws: list[ast.Call] = []
+
+    def at(self, node: ast.AST) -> list[tuple[list, ast.AST | None]]:
+        """(facts, symbolic right-hand side) for every path on which the statement of ``node`` runs."""
+        stmt = node if isinstance(node, ast.stmt) else next(a for a in ancestors(node) if isinstance(a, ast.stmt))
+        out, seen = [], set()
+        for st, _ in self.finals:
+            hit = st.reached.get(id(stmt))
+            if hit is None:
+                continue
+            facts = st.facts[: hit[0]]
+            key = (tuple((ast.dump(t), o) for t, o in facts), ast.dump(hit[1]) if hit[1] is not None else None)
+            if key not in seen:
+                seen.add(key)
+                out.append((facts, hit[1]))
+        if not out:
+            raise AnalysisError(f"{self.fn.qual}: `{unparse(stmt)}` is on no path of the function")
+        return out
+
+    def flipped_on_every_path(self, node: ast.AST) -> bool:
+        ok = True
+        for facts, _ in self.at(node):
+            flipped, raws = flip_status(facts, self.fn.qual)
+            self.raws += raws
+            ok = ok and flipped
+        return ok
 
 
 def check_selection_product(ctx: Check, tree: Tree, fn: FuncInfo, param: str) -> None:
@@ -98,6 +742,43 @@ def check_selection_product(ctx: Check, tree: Tree, fn: FuncInfo, param: str) ->
         if "parity_prefactor" not in txt or not (rd.closure(rd.uses(u.value)) & loop_defs):
             problems.append(f"`{unparse(u)}` is not the parity factor of the node `{var}`")
     ctx.verdict(not problems, "R-DEPENDS", key, tree.loc(loop), f"{fn.qual}: product of interaction.parity_prefactor over exactly the nodes in `{param}`", problems or None)
+
+
+def check_none_means_one(ctx: Check, tree: Tree, fn: FuncInfo, loop: ast.For, paths: "PathFacts") -> None:
+    """R-DEPENDS: the product is handed out whenever it is not 1 - `None` (no prefactor) only stands for +1.
+    Every path that answers None after the loop knows `X == 1` for the value X that the other paths hand out;
+    a path that answers None although it knows `X != 1` loses the sign.  A None under other conditions is not decided."""
+    is_none = lambda v: isinstance(v, ast.Constant) and v.value is None  # noqa: E731
+    is_one = lambda v: isinstance(v, ast.Constant) and not isinstance(v.value, bool) and v.value in {1, 1.0}  # noqa: E731
+    anything = lambda v: True  # noqa: E731
+    handed_out = [ast.dump(v) for _, v in paths.finals if not is_none(v)]
+    if not handed_out:
+        return
+    returns = [n for n in walk_function(fn.node, nested=False) if isinstance(n, ast.Return)]
+    lost, undecided, n_none = [], [], 0
+    for st, v in paths.finals:
+        if not is_none(v) or any(id(r) in st.reached and any(a is loop for a in ancestors(r)) for r in returns):
+            continue  # (a None from inside the loop is reported as leaving the loop early)
+        n_none += 1
+        known = None
+        for at in atoms(st.facts):
+            for holds, x in ((_asserts(at, anything, ast.Eq, ast.NotEq, is_one), at[0].left if isinstance(at[0], ast.Compare) else None),
+                             (_asserts(at, is_one, ast.Eq, ast.NotEq, anything), at[0].comparators[0] if isinstance(at[0], ast.Compare) else None)):
+                if holds is not None and x is not None and (is_one(x) or any(ast.dump(x) in h for h in handed_out)):
+                    known = holds if known is None else (known and holds)
+        path = " and ".join(f"{'' if o else 'not '}({unparse(t)})" for t, o in st.facts[-2:]) or "unconditionally"
+        if known is False:
+            lost.append(path)
+        elif known is None:
+            undecided.append(path)
+    where = next((g for r in returns if not any(a is loop for a in ancestors(r)) for g in ancestors(r) if isinstance(g, ast.If)), fn.node)
+    key = f"{fn.qual}::returned-iff-not-one"
+    if lost or not undecided:
+        ctx.verdict(not lost, "R-DEPENDS", key, tree.loc(where),
+                    "the accumulated prefactor is handed out whenever it differs from 1 (None stands for +1 only): every path that answers None knows `prefactor == 1`",
+                    None if not lost else {"a product of -1 is answered with None: the chain loses its parity sign. None is answered on the path(s)": sorted(set(lost))[:3]})
+    if undecided:
+        raise AnalysisError(f"{fn.qual}: None (no prefactor) is answered on a path that does not compare the product with 1 ({sorted(set(undecided))[0][:200]}): cannot decide whether the product is 1 there")
 
 
 def check_daughter_order(ctx: Check, tree: Tree) -> None:
@@ -172,9 +853,9 @@ def check_partner_key_flags(ctx: Check, tree: Tree) -> None:
 def run(ctx: Check, tree: Tree) -> None:
     ctx.decided += [
         'R-PARTNER (display flags): the strings that decide coefficient sharing and the parity flip do not depend on display flags of the name generator',
-        "R-DEPENDS: every non-trivial value returned by the parity-prefactor function depends on the node loop variable, and every contribution inside the node loop is guarded by the per-node test `mapped suffix != raw suffix` and takes the parity factor of that node",
+        "R-DEPENDS: every non-trivial value returned by the parity-prefactor function depends on the node loop variable, and every contribution inside the node loop is guarded by the per-node test `mapped suffix != raw suffix` and takes the parity factor of that node (decided on the paths of the function: guard clauses, nested ifs, extracted predicates / per-node helpers and `mapping.get(raw, raw)` read the same); the node loop is never left early; None is answered only where the product is known to be 1",
         "R-TERM (shared with C02): the canonical expansion used by the equivalence clause is CG(L,0;S,d|J,d) * CG(s1,l1;s2,-l2|S,d) on every path",
-        "R-PARTNER: the partner suffix is built with make_parity_partner=True for both daughters and without the parent helicity; _state_to_str negates the helicity; each node suffix is mapped through the partner mapping",
+        "R-PARTNER: the partner suffix is built with make_parity_partner=True for both daughters and without the parent helicity; _state_to_str negates the helicity; the sequential suffix joins, for EVERY node, the suffix the partner mapping gives for the node's raw suffix (the raw suffix itself if unregistered) - loop or comprehension; the accessor of the mapping is not memoised while the mapping is re-bound",
     ]
     ctx.not_decided += ["equivalence with the canonical formalism for all LS coefficient values (numerical)", "which interactions qrules marks with a parity prefactor"]
     ctx.assumptions += ["qrules InteractionProperties.parity_prefactor is eta = P P1 P2 (-1)^(J-s1-s2) of that node"]
@@ -201,6 +882,11 @@ def run(ctx: Check, tree: Tree) -> None:
     loop = loops[0]
     loop_defs = {d for d in rd.defs if d.kind == "for" and d.node is loop}
     loop_var = unparse(loop.target)
+    paths = PathFacts(tree, fn)  # every path of the function, one generic node per loop
+    ctx.stats["paths"] = len(paths.finals)
+
+    def mentions_node(value: ast.AST | None) -> bool:
+        return value is not None and any(isinstance(n, ast.Name) and n.id.startswith("<each ") and n.id.endswith("topology.nodes>") for n in ast.walk(value))
 
     def depends_on_loop(expr: ast.AST) -> bool:
         return bool(rd.closure(rd.uses(expr)) & loop_defs)
@@ -223,28 +909,26 @@ def run(ctx: Check, tree: Tree) -> None:
             continue
         inside = any(a is loop for a in ancestors(ret))
         if inside:
-            ok = under_flip_test(ret, loop, rd)
-            ctx.verdict(ok, "R-DEPENDS", key + "::guard", tree.loc(ret), f"{fn.qual}: in-loop `{unparse(ret)}` is guarded by the flip test of that node",
-                        None if ok else "returned for a node that was not mapped to a partner")
+            # a value handed out from inside the node loop never saw the remaining nodes: whatever it is, it is
+            # not the product over ALL flipped nodes of the chain (and without the flip test not even of this one)
+            guarded = paths.flipped_on_every_path(ret)
+            ctx.verdict(False, "R-DEPENDS", key + "::guard", tree.loc(ret), f"{fn.qual}: in-loop `{unparse(ret)}` is guarded by the flip test of that node and is the product over all flipped nodes",
+                        "returned before the remaining nodes of the chain were looked at: the parity factors of flipped nodes that come later are dropped" if guarded
+                        else "returned for a node that was not mapped to a partner")
         else:
             ctx.ok("R-DEPENDS", tree.loc(ret), f"{fn.qual}: `{unparse(ret)}` depends on the node loop variable `{loop_var}`")
     if n_checked == 0:
         raise AnalysisError(f"{fn.qual}: no non-None return")
-    # the product is handed out whenever it is not 1: `None` (no prefactor) only stands for +1
-    for ret, _ in rd.returns:
-        if ret.value is None or (isinstance(ret.value, ast.Constant) and ret.value.value is None):
-            continue
-        if any(a is loop for a in ancestors(ret)):
-            continue
-        guards = [a for a in ancestors(ret) if isinstance(a, ast.If)]
-        for g in guards:
-            t = g.test
-            acc = [n.id for n in ast.walk(ret.value) if isinstance(n, ast.Name)]
-            ok_t = (isinstance(t, ast.Compare) and len(t.ops) == 1 and isinstance(t.ops[0], ast.NotEq) and isinstance(t.comparators[0], ast.Constant)
-                    and t.comparators[0].value in {1, 1.0} and isinstance(t.left, ast.Name) and t.left.id in acc)
-            ctx.verdict(ok_t, "R-DEPENDS", f"{fn.qual}::returned-iff-not-one", tree.loc(g),
-                        f"the accumulated prefactor is returned under `{unparse(t)}` - whenever it differs from 1 (None stands for +1 only)",
-                        None if ok_t else "a product of -1 would be answered with None: the chain loses its parity sign")
+    # ---- the node loop runs over ALL nodes: leaving it early drops the parity factors of the flipped nodes that follow
+    in_loop = lambda n: any(a is loop for a in ancestors(n))  # noqa: E731
+    nearest_loop = lambda n: next((a for a in ancestors(n) if isinstance(a, (ast.For, ast.While))), None)  # noqa: E731
+    for node in walk_function(loop, nested=False):
+        early = (isinstance(node, ast.Break) and nearest_loop(node) is loop) or (isinstance(node, ast.Return) and (node.value is None or (isinstance(node.value, ast.Constant) and node.value.value is None)))
+        if early:
+            ctx.violation("R-DEPENDS", f"{fn.qual}::loop-left-early::{unparse(node)}", tree.loc(node),
+                          f"{fn.qual}: `{unparse(node)}` leaves the loop over the nodes of the chain before all nodes were looked at",
+                          "the parity factors of flipped nodes that come later in the chain are dropped (a guard clause of a per-node test is `continue`)")
+    ctx.section(check_none_means_one, ctx, tree, fn, loop, paths)
 
     # ---- contributions inside the loop: accumulator updates that reach a return
     returned_names = set()
@@ -265,16 +949,26 @@ def run(ctx: Check, tree: Tree) -> None:
             continue
         n_updates += 1
         key = f"{fn.qual}::update {unparse(node)}"
-        guarded = under_flip_test(node, loop, rd)
-        dep = depends_on_loop(value)
-        txt = unparse(value) + "".join(unparse(d.value) for d in rd.closure(rd.uses(value)) if d.value is not None)
-        takes_factor = "parity_prefactor" in txt
+        # judged per path, on the value the factor has there (helpers and local definitions substituted):
+        # a factor that is the constant 1 contributes nothing; every other factor needs the flip test of its node
+        guarded = dep = takes_factor = True
+        for facts, factor in paths.at(node):
+            if factor is not None and isinstance(factor, ast.Constant) and not isinstance(factor.value, bool) and factor.value in {1, 1.0}:
+                continue
+            flipped, raws = flip_status(facts, fn.qual)
+            paths.raws += raws
+            guarded = guarded and flipped
+            dep = dep and mentions_node(factor)
+            takes_factor = takes_factor and any(isinstance(n, ast.Attribute) and n.attr == "parity_prefactor" for n in ast.walk(factor))
+        dep = dep and depends_on_loop(value)
         problems = []
         if not guarded:
             problems.append("applied to nodes that were NOT mapped to a partner (not under `mapped != raw`)")
         if not dep:
             problems.append(f"the factor does not depend on `{loop_var}`")
         if not takes_factor:
+            if paths.sym.opaque_calls:
+                raise AnalysisError(f"{fn.qual}: the factor of `{unparse(node)}` comes out of `{sorted(paths.sym.opaque_calls)[0]}(...)`, which the path analysis could not follow")
             problems.append("the factor is not interaction.parity_prefactor")
         ctx.verdict(not problems, "R-DEPENDS", key, tree.loc(node), f"{fn.qual}: `{unparse(node)}` multiplies the parity factor of exactly the flipped node", problems or None)
     ctx.stats["in_loop_updates"] = n_updates
@@ -292,7 +986,7 @@ def run(ctx: Check, tree: Tree) -> None:
         n_collect += 1
         key = f"{fn.qual}::collect {unparse(node)}"
         problems = []
-        if not under_flip_test(node, loop, rd):
+        if not paths.flipped_on_every_path(node):
             problems.append("nodes are collected that were NOT mapped to a partner (not under `mapped != raw`)")
         if unparse(item) != loop_var:
             problems.append(f"collects `{unparse(item)}`, not the node `{loop_var}`")
@@ -320,8 +1014,10 @@ def run(ctx: Check, tree: Tree) -> None:
         raise AnalysisError(f"{fn.qual}: neither an in-loop product nor a collection of flipped nodes found - the rule would pass vacuously")
 
     # ---- the raw suffix that is looked up is the suffix of that node
-    lookups = [n for n in walk_function(loop) if isinstance(n, ast.Call) and isinstance(n.func, ast.Attribute) and n.func.attr == "generate_two_body_decay_suffix"]
-    ok = bool(lookups) and all(len(c.args) == 2 and unparse(c.args[1]) == loop_var for c in lookups)
+    # (the suffixes that the flip tests on the paths compare - wherever they are computed: in the loop, in a helper)
+    lookups = [n for n in walk_function(loop) if is_raw(n)]
+    ok = bool(paths.raws or lookups) and all(raw_node(c) is not None and mentions_node(raw_node(c)) and isinstance(raw_node(c), ast.Name) for c in paths.raws)
+    ok = ok and all(raw_node(c) is not None and unparse(raw_node(c)) == loop_var for c in lookups)
     ctx.verdict(ok, "R-DEPENDS", f"{fn.qual}::raw-suffix-of-node", tree.loc(loop), f"the raw suffix is generate_two_body_decay_suffix(transition, {loop_var}) of the loop's node")
 
     ctx.section(check_partner_suffix, ctx, tree)
@@ -392,21 +1088,75 @@ def check_partner_suffix(ctx: Check, tree: Tree) -> None:
     ok = bool(when) and unparse(when[True]).replace(" ", "") in {"-1*state.spin_projection", "-state.spin_projection", "state.spin_projection*-1"} and unparse(when[False]) == "state.spin_projection"
     ctx.verdict(ok, "R-PARTNER", f"{sts.qual}::negated-helicity", tree.loc(sts.node), "_state_to_str: make_parity_partner renders the negated helicity, otherwise the helicity itself")
     seq = cls.methods.get("generate_sequential_amplitude_suffix")
-    loops = node_loops(seq)
-    ok = len(loops) == 1
-    if ok:
-        from ..canon import canon
-
-        loop = loops[0]
-        body = canon(loop, seq.node)
-        # for _0 in transition.topology.nodes: _1 = suffix(transition, _0); if _1 in mapping: _1 = mapping[_1]; _2.append(_1)
-        ok = (
-            "self.generate_two_body_decay_suffix(transition, _0)" in body
-            and f"_1 = self.{MAPPING}[_1]" in body
-            and "_2.append(_1)" in body
-            and not any(isinstance(n, (ast.Continue, ast.Break)) for n in walk_function(loop))
-        )
-    ctx.verdict(ok, "R-PARTNER", f"{seq.qual}::maps-each-node", tree.loc(seq.node), "generate_sequential_amplitude_suffix maps the suffix of every node through the partner mapping")
+    if seq is None:
+        raise AnalysisError("vanished anchor: generate_sequential_amplitude_suffix")
+    # on every path the result is `sep.join(...)` over ALL nodes (one element per node, no filter) of the
+    # coefficient suffix of the node: mapping.get(raw, raw) == (mapping[raw] if raw in mapping else raw)
+    problems = []
+    for st, value in PathFacts(tree, seq).finals:
+        ats = atoms(st.facts)
+        joined = value.args[0] if (isinstance(value, ast.Call) and isinstance(value.func, ast.Attribute) and value.func.attr == "join"
+                                   and isinstance(value.func.value, ast.Constant) and len(value.args) == 1 and not value.keywords) else None
+        if not _is_seq(joined):
+            problems.append(f"returns `{unparse(value)[:120]}`, not a separator joined over the nodes")
+            continue
+        gen = joined.generators[0]
+        if not unparse(gen.iter).endswith("topology.nodes"):
+            problems.append(f"the joined sequence ranges over `{unparse(gen.iter)}`, not over transition.topology.nodes")
+        if gen.ifs:
+            problems.append(f"not every node contributes exactly one suffix: {', '.join(unparse(c) for c in gen.ifs)}")
+        elt = joined.elt
+        raw = elt if is_raw(elt) else elt.slice if isinstance(elt, ast.Subscript) else elt.args[0] if isinstance(elt, ast.Call) and elt.args else None
+        if raw is None or not is_raw(raw) or raw_node(raw) is None or not _same(raw_node(raw), ast.Name(id=gen.target.id, ctx=ast.Load())):
+            problems.append(f"the element `{unparse(elt)[:120]}` is not derived from the raw suffix of the node")
+        elif elt is raw:
+            if registered(raw, ats) is not False:
+                problems.append("the raw suffix of a node is used although it may be registered with a partner (not mapped)")
+        elif isinstance(elt, ast.Subscript):
+            if not (mapped_value(elt, raw, ats) and registered(raw, ats) is True):
+                problems.append(f"`{unparse(elt)[:120]}` on a path where the suffix is not known to be registered")
+        elif not (mapped_value(elt, raw, ats) and len(elt.args) == 2):
+            problems.append(f"`{unparse(elt)[:120]}` is not the mapped suffix with the raw suffix as fallback")
+    ctx.verdict(not problems, "R-PARTNER", f"{seq.qual}::maps-each-node", tree.loc(seq.node), "generate_sequential_amplitude_suffix maps the suffix of every node through the partner mapping",
+                sorted(set(problems)) or None)
+    check_mapping_accessor(ctx, tree, cls)
     reg = cls.methods.get("__register_amplitude_coefficient_name")
     conts = [n for n in walk_function(reg.node) if isinstance(n, ast.If) and "parity_prefactor is None" in unparse(n.test) and any(isinstance(s, ast.Continue) for s in n.body)]
     ctx.verdict(len(conts) == 1, "R-PARTNER", f"{reg.qual}::only-parity-nodes", tree.loc(reg.node), "only nodes with a parity prefactor take part in the partner mapping")
+
+
+def check_mapping_accessor(ctx: Check, tree: Tree, cls) -> None:
+    """R-PARTNER: the mapping the builder reads through `naming.parity_partner_coefficient_mapping` is the one
+    the names are generated from.  `_register_amplitude_coefficients` RE-BINDS the private attribute whenever
+    a naming flag changes, so an accessor that memoises its result keeps answering with the mapping of an
+    earlier configuration: coefficient names follow the new mapping, the parity signs the old one."""
+    private = lambda n: isinstance(n, ast.Attribute) and n.attr.startswith("_") and is_mapping(n) and isinstance(n.value, ast.Name) and n.value.id == "self"  # noqa: E731
+    accessors = [c.methods[MAPPING] for c in [cls, *tree.subclasses(cls)] if MAPPING in c.methods]
+    if not accessors:
+        raise AnalysisError(f"vanished anchor: {cls.qual}.{MAPPING}")
+    # is the attribute re-bound after construction?  (a method other than __init__ stores it and is called by a method other than __init__)
+    family = [cls, *tree.subclasses(cls)]
+    called_after_init = {q for c in family for g in c.methods.values() if g.name != "__init__" for _, q in tree.calls_in(g) if q}
+    rebinders = []
+    for c in family:
+        for m in c.methods.values():
+            stores = [n for n in walk_function(m.node) if isinstance(n, (ast.Assign, ast.AnnAssign)) and getattr(n, "value", None) is not None
+                      and any(private(t) for t in (n.targets if isinstance(n, ast.Assign) else [n.target]))]
+            if stores and m.name != "__init__" and (m.qual in called_after_init or not m.name.startswith("_")):
+                rebinders.append(m)
+    for acc in accessors:
+        decorators = [unparse(d) for d in acc.node.decorator_list]
+        memoised = [d for d in decorators if "cache" in d.lower()]
+        key = f"{acc.qual}::live-mapping"
+        if memoised and rebinders:
+            ctx.violation("R-PARTNER", key, tree.loc(acc.node),
+                          f"the accessor `{MAPPING}` is memoised (`@{memoised[0]}`) but `{rebinders[0].name}` re-binds the mapping whenever a naming flag changes: the builder keeps reading the mapping of an earlier configuration while the coefficient names follow the new one",
+                          {"re-bound in": [tree.loc(m.node) for m in rebinders][:3]})
+            continue
+        if set(decorators) - {"property", "override", "typing.override"} - set(memoised):
+            raise AnalysisError(f"{acc.qual}: unknown decorator(s) {decorators} on the accessor of the partner mapping")
+        values = [v for _, v in PathFacts(tree, acc).finals]
+        live = all(any(private(n) for n in ast.walk(v)) for v in values)
+        if not live:
+            raise AnalysisError(f"{acc.qual}: returns `{unparse(values[0])[:100]}` - cannot decide whether that is the current partner mapping")
+        ctx.ok("R-PARTNER", tree.loc(acc.node), f"{acc.qual}: every read of `{MAPPING}` evaluates the current `self.__{MAPPING}` (not memoised" + (", never re-bound)" if not rebinders else ")"))
